@@ -40,6 +40,9 @@ type cfg struct {
 	// Rtsp: the RTSP server is on and its subscribers do not wait for a key frame (so that a joining
 	// player is fed from the first frame and the depth bound reaches its queue-full instants)
 	Rtsp bool `json:"rtsp"`
+	// Merge: rtmp.merge_write_size (0 = off). With merge-write RTMP delivery trails the publisher by up to
+	// that many bytes (C01 bounds the lag), so "delivered within the step" is not demanded of RTMP consumers
+	Merge int `json:"merge_write_size"`
 }
 
 type replay struct {
@@ -90,6 +93,9 @@ func newSys(c cfg) *sys {
 	if c.Rtsp {
 		conf["rtsp.enable"] = true
 		conf["rtsp.out_wait_key_frame_flag"] = false
+	}
+	if c.Merge > 0 {
+		conf["rtmp.merge_write_size"] = c.Merge
 	}
 	s := &sys{c: c, x: sw.New(conf), cs: map[int]*cstate{}}
 	s.x.W.Net.QuiesceTimeout = 20 * time.Second
@@ -300,7 +306,7 @@ func (s *sys) Apply(ev string) error {
 			if strings.HasPrefix(ev, "P") && !st.everStall && len(P) > pubBefore && c.RtpPkts == st.rtpBefore {
 				s.add("healthy-consumer-delayed/"+c.Kind, "no RTP packet reached consumer %d (%s), which has never stalled, while %s was published", c.ID, c.Kind, ev)
 			}
-		} else if strings.HasPrefix(ev, "P") && !st.everStall && c.Kind != "ts" && len(P) > pubBefore && !gated {
+		} else if strings.HasPrefix(ev, "P") && !st.everStall && c.Kind != "ts" && len(P) > pubBefore && !gated && !(c.Kind == "rtmp" && s.c.Merge > 0) {
 			if !seen[len(P)-1] {
 				s.add("healthy-consumer-delayed/"+c.Kind, "message #%d (%s) was not delivered to consumer %d (%s), which has never stalled", len(P)-1, P[len(P)-1].Kind, c.ID, c.Kind)
 			}
@@ -383,6 +389,7 @@ func configs(r *vk.Run) []cfg {
 		{Name: "rtmp+flv", Kinds: []string{"rtmp", "flv"}, MaxCons: 2},
 		{Name: "wsflv+ts", Kinds: []string{"wsflv", "ts"}, MaxCons: 2},
 		{Name: "rtmp-video", Kinds: []string{"rtmp"}, MaxCons: 2, Video: true},
+		{Name: "rtmp+merge", Kinds: []string{"rtmp"}, MaxCons: 2, Merge: 100},
 		{Name: "rtsp", Kinds: []string{"rtsp"}, MaxCons: 1, Video: true, Rtsp: true},
 		{Name: "wsrtsp", Kinds: []string{"wsrtsp"}, MaxCons: 1, Video: true, Rtsp: true},
 	}
